@@ -258,6 +258,7 @@ def step (st : St) (line : String) : St × String :=
       | some (_, sl) => sl
       | none => {}
     ({ st with slots := saved, cur := n, tree := sl.tree, params := sl.params, dead := sl.dead, ty := sl.ty }, "slot ok")
+  | ["indep", _] => (st, "indep ok")   -- implementation-side probe (two trees, real goroutines); nothing to model: trees are values
   | ["chk", ord] =>
     match parseInt? ord with
     | none => (st, "bad-op")
